@@ -37,6 +37,7 @@ type c14Case struct {
 	CustomClass    bool      `json:"custom_classifier"`
 	CustomExceeded bool      `json:"custom_exceeded"`
 	Named          bool      `json:"named,omitempty"`
+	OptOrder       []int     `json:"opt_order,omitempty"` // permutation applied to the option list (options must commute)
 	Calls          []c14Call `json:"calls"`
 }
 
@@ -59,6 +60,7 @@ func genC14(t *rapid.T) c14Case {
 		}
 	})
 	c.Calls = rapid.SliceOfN(call, 1, 20).Draw(t, "calls")
+	c.OptOrder = rapid.Permutation(seq(8)).Draw(t, "optOrder")
 	return c
 }
 
@@ -154,6 +156,7 @@ func runC14(_ *testing.T, c c14Case) (out kit.Outcome) {
 					return gcl.ResponseType(cur.Classify)
 				}))
 		}
+		opts = permuteOpts(opts, c.OptOrder)
 		serverI = gcl.UnaryServerInterceptor(opts...)
 		clientI = gcl.UnaryClientInterceptor(opts...)
 	case "stream":
@@ -174,6 +177,7 @@ func runC14(_ *testing.T, c c14Case) (out kit.Outcome) {
 			}
 			opts = append(opts, gcl.WithStreamServerResponseTypeClassifier(cl), gcl.WithStreamClientResponseTypeClassifier(cl))
 		}
+		opts = permuteOpts(opts, c.OptOrder)
 		streamI = gcl.StreamServerInterceptor(opts...)
 	}
 
@@ -342,4 +346,33 @@ func TestC14_interceptors(t *testing.T) {
 		Rule: "option sets x call sequences (grant/refuse, result, classifier answer, status code, stream direction) on recording doubles; event grammar per call; non-trivial = a refusal, a grant and a non-success classification (streams: both directions)",
 		Gen:  genC14, Run: runC14,
 	})
+}
+
+// permuteOpts reorders an option list by the generated permutation (stable for missing entries).
+func permuteOpts[T any](opts []T, order []int) []T {
+	if len(order) == 0 {
+		return opts
+	}
+	type kv struct {
+		k int
+		v T
+	}
+	tmp := make([]kv, len(opts))
+	for i, o := range opts {
+		k := i
+		if i < len(order) {
+			k = order[i]
+		}
+		tmp[i] = kv{k, o}
+	}
+	for i := 1; i < len(tmp); i++ {
+		for j := i; j > 0 && tmp[j].k < tmp[j-1].k; j-- {
+			tmp[j], tmp[j-1] = tmp[j-1], tmp[j]
+		}
+	}
+	out := make([]T, len(tmp))
+	for i, x := range tmp {
+		out[i] = x.v
+	}
+	return out
 }
